@@ -8,8 +8,22 @@ from more_executors._impl import futures as F
 
 FN_MAP = (None, "ret", "raise")
 FN_FLAT = (None, "fut_ok", "fut_err", "fut_cancelled", "fut_later", "nonfuture", "raise")
-EFN_MAP = (None, "ret", "raise", "reraise")
-EFN_FLAT = (None, "fut_ok", "raise", "reraise", "nonfuture")
+EFN_MAP = (None, "ret", "raise", "reraise", "raise_equal")
+EFN_FLAT = (None, "fut_ok", "raise", "reraise", "nonfuture", "raise_equal")
+
+
+class EqE(Exception):
+    """exceptions of this class all compare equal (value-style __eq__)"""
+
+    def __init__(self, tag):
+        Exception.__init__(self, tag)
+        self.tag = tag
+
+    def __eq__(self, other):
+        return isinstance(other, EqE)
+
+    def __hash__(self):
+        return 7
 
 
 def _params():
@@ -35,7 +49,8 @@ def origin(exc):
 def body(mc, p):
     calls = {"fn": [], "efn": []}
     later = ProbeFuture(mc, "later")
-    orig = E("in")
+    orig = EqE("in") if p["efn"] == "raise_equal" else E("in")
+    newexc = []
 
     def fn(x):
         calls["fn"].append(x)
@@ -68,6 +83,10 @@ def body(mc, p):
             raise E2("efn")
         if k == "reraise":
             raise ex
+        if k == "raise_equal":
+            e2 = EqE("other")          # equal to, but not, the input's exception
+            newexc.append(e2)
+            raise e2
         if k == "nonfuture":
             return 8
 
@@ -94,7 +113,7 @@ def body(mc, p):
             else:
                 try:
                     origin(orig)
-                except E as e:
+                except Exception as e:
                     src.set_exception(e)
         out = F.f_flat_map(src, **kw) if p["flat"] else F.f_map(src, **kw)
     mc.emit("before", s=snapshot(out))
@@ -108,7 +127,7 @@ def body(mc, p):
             else:
                 try:
                     origin(orig)
-                except E as e:
+                except Exception as e:
                     base.complete(0, exc=e)
         else:
             if not p.get("refused"):
@@ -118,7 +137,7 @@ def body(mc, p):
             else:
                 try:
                     origin(orig)
-                except E as e:
+                except Exception as e:
                     src.set_exception(e)
     mid = snapshot(out)
     if later.set_running_or_notify_cancel():
@@ -133,7 +152,7 @@ def body(mc, p):
             names.append(tb.tb_frame.f_code.co_name)
             tb = tb.tb_next
         tb_has_origin = "origin" in names
-    mc.observe(out=s, mid=mid, nfn=len(calls["fn"]), nefn=len(calls["efn"]), same=exc is orig if exc is not None else None,
+    mc.observe(is_new=(exc is newexc[0]) if (exc is not None and newexc) else None, out=s, mid=mid, nfn=len(calls["fn"]), nefn=len(calls["efn"]), same=exc is orig if exc is not None else None,
                tb_has_origin=tb_has_origin, fnargs=tuple(brief(a) for a in calls["fn"]),
                efn_same=tuple(a is orig for a in calls["efn"]))
 
@@ -171,6 +190,8 @@ def ref(p):
             return ("err", "E2(efn)"), 0, 1, False
         if k == "reraise":
             return ("err", "E(in)"), 0, 1, True
+        if k == "raise_equal":
+            return ("err", "EqE(other)"), 0, 1, False
         if k == "nonfuture":
             return ("err", "TypeError"), 0, 1, False
 
@@ -192,6 +213,8 @@ def check(x):
         x.require(x.obs["fnargs"] == ("x",), "fn-argument", detail=repr(x.obs["fnargs"]))
     if nefn:
         x.require(x.obs["efn_same"] == (True,), "error-fn-argument-not-the-exception")
+    if p["efn"] == "raise_equal" and p["inp"] == "err":
+        x.require(x.obs["is_new"] is True, "error-fn-exception-replaced-by-equal-one", detail=repr(got))
     if same is True:
         x.require(x.obs["same"] is True, "exception-not-same-object")
         x.require(x.obs["tb_has_origin"] is True, "traceback-lost")
@@ -379,5 +402,6 @@ oracle("c13.chainrace")(kcheck)
 
 PLAN = {
     "quick": [dict(harness="c13.laws", bound=0), dict(harness="c13.chainrace", bound=2), dict(harness="c13.chains", bound=0), dict(harness="c13.race", bound=2)],
-    "thorough": [dict(harness="c13.laws", bound=0), dict(harness="c13.chainrace", bound=3), dict(harness="c13.chains", bound=0), dict(harness="c13.race", bound=4)],
+    "thorough": [dict(harness="c13.laws", bound=0), dict(harness="c13.chainrace", bound=2), dict(harness="c13.chainrace", bound=2, order="desc"),
+                 dict(harness="c13.chains", bound=0), dict(harness="c13.race", bound=3), dict(harness="c13.race", bound=2, order="desc")],
 }
